@@ -77,6 +77,9 @@ REQUIRED = [
 ]
 
 F16_KEY = "C15/elliptic-fixed-point/dim>=3/repeated-eigenvalue-1"
+# same mechanism in dimension 2: only reflections (orientation-reversing elliptic
+# isometries, outside the quantifier's families) have a repeated eigenvalue 1 there
+F16_DIM2_KEY = "C15/elliptic-fixed-point/dim2/reflection/repeated-eigenvalue-1"
 
 TOL = 1e-7            # bulk relative tolerance (pinned-tree residuals <= 1e-12)
 IDEAL_TOL = 1e-7      # |<p,p>| / |p|^2 of a reported ideal point
@@ -89,6 +92,13 @@ _expect = weakref.WeakKeyDictionary()
 def expect(obj, **info):
     _expect[obj] = info
     return obj
+
+
+def expected(obj):
+    try:
+        return _expect.get(obj)
+    except TypeError:                 # ndarrays are neither hashable nor weakly referenceable
+        return None
 
 
 def _units(arr, unit_ndims):
@@ -151,7 +161,11 @@ def judge_reflection_unit(mon, R, ideal, nu, cond, sig, case):
     s = max(1.0, ri.maxabs(R))
     ok = True
     if not np.all(np.isfinite(R)):
-        return mon.fail("reflection_across/non-finite", "reflection matrix has non-finite entries", case)
+        through = abs(nu[0]) <= 1e-12 * np.linalg.norm(nu)
+        return mon.fail("reflection_across/non-finite/%s%s"
+                        % (sig.split(",")[0], "/wall-through-origin" if through else ""),
+                        "reflection matrix has non-finite entries (%s%s)"
+                        % (sig, ", wall through the origin" if through else ""), case)
     ok &= mon.judge(ri.maxabs(R @ R - np.eye(n1)) / (s * s), tol,
                     "reflection_across/not-involution",
                     "R.R != identity for the reflection across a wall (%s)" % sig, case)
@@ -300,7 +314,7 @@ def make_hooks(run, hyp, GeometryError):
         rejected = raised and isinstance(call.exc, GeometryError)
         if any(v is False for v in vs):
             why = [v[2] for v in verdicts if v[0] is False][0]
-            info = _expect.get(arg) or {}
+            info = expected(arg) or {}
             cls = info.get("class", "unclassified")
             if rejected:
                 return m_rej.ok()
@@ -372,7 +386,7 @@ def make_hooks(run, hyp, GeometryError):
     # -- fixed points ---------------------------------------------------------------
     def unit_type(iso_obj, k, M):
         """(type, mult1, rho, class label) for unit k, or (None, reason)."""
-        info = _expect.get(iso_obj)
+        info = expected(iso_obj)
         c = ri.classify(M)
         if info is not None:
             want = info.get("type")
@@ -386,10 +400,12 @@ def make_hooks(run, hyp, GeometryError):
         return (c["type"], c["mult1"], c["rho"], "ambient"), None
 
     def fp_key(what, typ, n, mult1):
-        if typ == "elliptic" and n >= 3 and mult1 >= 2:
-            return F16_KEY
-        extra = "/repeated-eigenvalue-1" if (typ == "elliptic" and mult1 >= 2) else ""
-        return "fixed_point/%s/%s/dim%s%s" % (what, typ, "2" if n == 2 else ">=3", extra)
+        # the mechanism of F16 (eig returns an arbitrary basis of a repeated
+        # eigenvalue-1 eigenspace on which the form is indefinite) gets one key per
+        # dimension class, whatever the symptom; everything else is keyed by symptom
+        if typ == "elliptic" and mult1 >= 2:
+            return F16_KEY if n >= 3 else F16_DIM2_KEY
+        return "fixed_point/%s/%s/dim%s" % (what, typ, "2" if n == 2 else ">=3")
 
     def scale_tol(typ, M, rho):
         s = max(1.0, ri.maxabs(M))
@@ -548,6 +564,9 @@ def setup(run):
 # generators
 
 COMPOSITE_SHAPES = [(), (3,), (2, 2), (1,), (4,)]
+# (v0, v1, v2, ...) with v1^2 = v0^2 + v2^2 + ...
+PYTHAGOREAN = [(0, 1, 1), (0, 1, -1), (3, 5, 4), (4, 5, -3), (0, 5, 3, 4), (5, 13, 12),
+               (0, 13, 5, 12), (1, 3, 2, 2), (2, 3, 1, 2), (0, 3, 1, 2, 2), (0, 2, 1, 1, 1, 1)]
 
 
 def rand_normals(rng, n, shape, cls):
@@ -564,6 +583,29 @@ def rand_normals(rng, n, shape, cls):
         u = np.zeros(tuple(shape) + (n,))
         u[..., int(rng.integers(0, n))] = 1.0
         a = np.zeros(tuple(shape) + (1,))
+    elif cls == "lightlike-kernel":
+        # v1^2 = v0^2 + v2^2 + ...: the Householder basis LAPACK returns for the
+        # Minkowski complement of v then contains a lightlike vector (hostile for
+        # an indefinite Gram-Schmidt).  Exact integer instances and rounded ones.
+        out = np.empty(tuple(shape) + (n + 1,))
+        for ind in (np.ndindex(*shape) if shape else [()]):
+            if rng.random() < 0.5:
+                trip = PYTHAGOREAN[int(rng.integers(0, len(PYTHAGOREAN)))]
+                v = np.zeros(n + 1)
+                v[0], v[1] = trip[0], trip[1]
+                rest = list(trip[2:])[:n - 1]
+                if len(rest) < len(trip) - 2:       # does not fit this dimension
+                    v[0], v[1], rest = 0.0, 1.0, [1.0]
+                pos = rng.choice(np.arange(2, n + 1), size=len(rest), replace=False)
+                v[pos] = rest
+                v *= float(2.0 ** int(rng.integers(-2, 3))) * float(rng.choice([-1.0, 1.0]))
+            else:
+                w = rh.rand_sphere(rng, n - 1) * float(rng.uniform(0.5, 2.0))
+                a0 = float(rng.uniform(-1.5, 1.5)) * float(np.linalg.norm(w))
+                v = np.concatenate([[a0, float(rng.choice([-1.0, 1.0])) *
+                                     math.sqrt(a0 * a0 + float(w @ w))], w])
+            out[ind] = v
+        return out
     else:
         raise ValueError(cls)
     v = np.concatenate([a, u], axis=-1)
@@ -614,7 +656,7 @@ def conjugate(C, S, how):
 # ---------------------------------------------------------------------------
 # workloads: walls
 
-WALL_CLASSES = ["bulk", "bulk", "through-origin", "far", "axis"]
+WALL_CLASSES = ["bulk", "lightlike-kernel", "through-origin", "far", "axis", "bulk"]
 
 
 def check_wall_data(run, H, v, sig, case):
@@ -690,9 +732,11 @@ def wl_walls(run, rng, idx):
     if n == 2:
         G = Geodesic.from_reflection(R)                      # P: geodesic-from-reflection
         Rg = G.reflection_across()                           # Subspace._data_with_dual route
-        rt.judge(ri.maxabs(np.asarray(Rg.proj_data, dtype=float) - b) / max(1.0, ri.maxabs(b)),
-                 tolu * 10, "roundtrip/geodesic-from-reflection/reflection-differs",
-                 "Geodesic.from_reflection(R).reflection_across() differs from R %r" % (sig,), case)
+        rg = np.asarray(Rg.proj_data, dtype=float)
+        if np.all(np.isfinite(rg)):                          # (non-finite: reported by the postcondition)
+            rt.judge(ri.maxabs(rg - b) / max(1.0, ri.maxabs(b)),
+                     tolu * 10, "roundtrip/geodesic-from-reflection/reflection-differs",
+                     "Geodesic.from_reflection(R).reflection_across() differs from R %r" % (sig,), case)
     else:
         try:
             Geodesic.from_reflection(R)                      # must be rejected (hook judges)
@@ -747,6 +791,21 @@ def wl_ideal_walls(run, rng, idx):
                  "roundtrip/ideal-points->reflection->wall/normal-differs",
                  "wall recovered from the reflection across span(ideal points) has "
                  "another normal %r" % (sig,), case)
+    if n >= 3:
+        # fewer than n ideal points do not span a wall: documented GeometryError
+        k2 = int(rng.integers(2, n))
+        Q = rand_ideal_points(rng, n, k2)
+        run.note_class("ideal-walls-too-small", n, k2)
+        small = Geodesic(Q.copy()) if k2 == 2 else Subspace(Q.copy())
+        try:
+            small.reflection_across()                         # P expects the rejection
+            run.monitor("reflection-across").fail(
+                "reflection_across/non-hyperplane-accepted",
+                "reflection_across of %d ideal points in dimension %d did not raise" % (k2, n),
+                {"ideal_points": Q})
+        except Exception as e:
+            if type(e).__name__ != "GeometryError":
+                raise
     if idx < 1:
         run.sample({"workload": "ideal-walls", "dimension": n, "ideal_points": P})
 
